@@ -44,7 +44,7 @@ def gen_tasks(tier, seed):
             tasks.append({"kind": "pw", "ranges": rl, "constants": cs, "xtype": xtype})
     # queued bound changes / fix_variable / objective replacement: op sequences
     rng = random.Random(seed + 12)
-    ops = ["qfix", "qlb", "fix", "obj", "addvars"]
+    ops = ["qfix", "qlb", "fix", "obj", "obj0", "addvars"]
     seqs = [list(p) for n in (1, 2, 3) for p in itertools.product(ops, repeat=n)]
     if tier == "quick":
         seqs = [s for s in seqs if len(s) <= 2] + rng.sample([s for s in seqs if len(s) == 3], 40)
@@ -325,6 +325,15 @@ def _run_seq(task):
             offset = 1.0
             maximize = sense == "maximize"
             log.append(("set_objective", f"{a}*v{j}+{b}*v{k}+1", sense))
+        elif op == "obj0":
+            a_ = rng.randrange(1, 4)
+            sense = rng.choice(["minimize", "maximize"])
+            w.set_objective(a_ * var[j], sense=sense)        # no constant term: the previous offset must disappear
+            cost = [0.0] * len(var)
+            cost[j] += a_
+            offset = 0.0
+            maximize = sense == "maximize"
+            log.append(("set_objective", f"{a_}*v{j}", sense))
         elif op == "addvars":
             nv = w.add_variables([len(var)], name_prefix="v", lb=1, ub=2, var_type="continuous")
             var.append(nv[len(var)])
